@@ -109,12 +109,21 @@ func (f *faultDS) preOpen() error {
 var errInjected = errors.New("verif: injected datastore read failure")
 
 func (f *faultDS) arm(at int, cancel context.CancelFunc, fail bool) {
+	f.armErr(at, cancel, fail, false)
+}
+
+// armErr: like arm; with ctxErr the injected read error is context.Canceled and it is sticky for the
+// iterator that hit it (a result set that died with the query's context keeps failing).
+func (f *faultDS) armErr(at int, cancel context.CancelFunc, fail, ctxErr bool) {
 	f.mu.Lock()
 	defer f.mu.Unlock()
 	f.armed, f.count, f.at, f.cancel, f.fired = true, 0, at, cancel, false
 	f.failErr = nil
 	if fail {
 		f.failErr = errInjected
+		if ctxErr {
+			f.failErr = context.Canceled
+		}
 	}
 }
 
@@ -150,9 +159,13 @@ type faultIter struct {
 	storage.TupleIterator
 	ds   *faultDS
 	once sync.Once
+	dead atomic.Bool // hit an injected context error: keeps failing
 }
 
 func (it *faultIter) Next(ctx context.Context) (*openfgav1.Tuple, error) {
+	if it.dead.Load() {
+		return nil, context.Canceled
+	}
 	if d := it.ds.slowNs.Load(); d > 0 {
 		time.Sleep(time.Duration(d))
 		if err := ctx.Err(); err != nil {
@@ -160,6 +173,9 @@ func (it *faultIter) Next(ctx context.Context) (*openfgav1.Tuple, error) {
 		}
 	}
 	if err := it.ds.onNext(); err != nil {
+		if errors.Is(err, context.Canceled) {
+			it.dead.Store(true)
+		}
 		return nil, err
 	}
 	return it.TupleIterator.Next(ctx)
@@ -259,6 +275,8 @@ type QOp struct {
 	Tuples []m.Tuple     `json:"tuples,omitempty"` // write / delete
 	At     int           `json:"at,omitempty"`     // fault trigger: n-th datastore Next (0 = none)
 	Fail   bool          `json:"fail,omitempty"`   // trigger also returns a read error (else only cancels the request)
+	// FailCtx: the read error is context.Canceled (a datastore whose result set is bound to the query's context)
+	FailCtx bool `json:"fail_ctx,omitempty"`
 	// DeadlineUs > 0 (with Burst > 1): copy 0 of the burst runs under a real deadline that far away while every
 	// datastore Next takes SlowUs; the other copies are clean requests sharing its reads.
 	DeadlineUs int `json:"deadline_us,omitempty"`
